@@ -5,6 +5,8 @@
 import Driver.Pure
 import Driver.Dna
 import Driver.DynArr
+import Driver.Ind
+import Driver.Metrics
 import Driver.StoreDrv
 import Driver.Acct
 import Driver.Eng
@@ -27,6 +29,8 @@ def step (s : DState) (line : String) : DState × String :=
   | "sess" :: args => (s, Driver.Sess.handle args)
   | "acc" :: args => let (d, o) := Driver.Acct.handle s.acc args; ({ s with acc := d }, o)
   | "da" :: args => let (d, o) := Driver.DynArr.handle s.da args; ({ s with da := d }, o)
+  | "ind" :: args => (s, Driver.Ind.handle args)
+  | "mt" :: args => (s, Driver.Metrics.handle args)
   | [] => (s, "")
   | _ => (s, "bad-op")
 
